@@ -9,6 +9,7 @@ import (
 	"strings"
 
 	"github.com/llir/llvm/asm"
+	"github.com/llir/llvm/ir"
 	"github.com/llir/llvm/ir/constant"
 	"github.com/llir/llvm/ir/types"
 )
@@ -292,6 +293,75 @@ func runC09(c *config) {
 				o.Pass("through_parser")
 			}
 			o.Stat("through_parser")
+		}
+	}
+	// 7. one literal text at several widths in one module: the value of a literal depends on the width of its
+	// type (s0x reads a sign bit, a decimal may not fit), so what one occurrence meant says nothing about the next
+	for i := 0; i < 150*c.scale; i++ {
+		n := 1 + r.intn(16)
+		x := new(big.Int).SetUint64(r.next() >> uint(64-4*n))
+		hex := strings.ToUpper(x.Text(16))
+		lit := []string{"s0x" + hex, "u0x" + hex, x.String(), "-" + x.String()}[r.intn(4)]
+		base := uint64(4 * len(hex))
+		var sb strings.Builder
+		var ws []uint64
+		for k := 0; k < 2+r.intn(5); k++ {
+			w := base + uint64(r.intn(3))*uint64(1+r.intn(9))
+			if r.chance(25) && base > 4 {
+				w = base - uint64(1+r.intn(3))
+			}
+			ws = append(ws, w)
+		}
+		for k, w := range ws {
+			fmt.Fprintf(&sb, "@g%d = global i%d %s\n", k, w, lit)
+		}
+		fmt.Fprintf(&sb, "define i%d @f(i%d %%p) {\n\t%%r = add i%d %%p, %s\n\tret i%d %%r\n}\n", ws[0], ws[0], ws[0], lit, ws[0])
+		src := sb.String()
+		var m *ir.Module
+		oc, msg := guard(func() error {
+			var err error
+			m, err = asm.ParseString("c09w.ll", src)
+			return err
+		})
+		o.Stat("same_text_several_widths")
+		anyErr := false
+		for _, w := range ws {
+			if res, _ := c09Parse(w, lit); res == "Err" {
+				anyErr = true
+			}
+		}
+		if anyErr {
+			// a literal that one of the widths cannot read: the module as a whole is rejected or not; no value to compare
+			if oc == ocPanic {
+				o.Fail("through_parser", "", "literal in a module crashes the parser", map[string]interface{}{"src": src, "msg": msg})
+			} else {
+				o.Pass("through_parser")
+			}
+			continue
+		}
+		bad := ""
+		if oc != ocOk {
+			bad = "module rejected: " + msg
+		} else {
+			for k, w := range ws {
+				_, want := c09Parse(w, lit)
+				got := m.Globals[k].Init.(*constant.Int).X
+				if got.Cmp(want) != 0 {
+					bad = fmt.Sprintf("@g%d = global i%d %s holds %s, the literal alone reads %s", k, w, lit, got, want)
+					break
+				}
+			}
+			if bad == "" {
+				_, want := c09Parse(ws[0], lit)
+				if got := m.Funcs[0].Blocks[0].Insts[0].(*ir.InstAdd).Y.(*constant.Int).X; got.Cmp(want) != 0 {
+					bad = fmt.Sprintf("operand i%d %s holds %s, the literal alone reads %s", ws[0], lit, got, want)
+				}
+			}
+		}
+		if bad != "" {
+			o.Fail("through_parser", "", bad, map[string]interface{}{"src": src})
+		} else {
+			o.Pass("through_parser")
 		}
 	}
 	o.Sample(map[string]interface{}{"width": 16, "value": "65535", "printed": func() string { _, l := c09Ident(16, big.NewInt(65535)); return l }()})
